@@ -23,9 +23,12 @@ def stopJ (s : Stop) : Json :=
 def transferJ (t : Transfer) : Json :=
   jObj [("from", jNat t.fromStop), ("to", jNat t.toStop), ("type", jInt t.type), ("minTransferTime", jOpt jInt t.minTransferTime)]
 
-def serviceJ (s : Service) : Json :=
+/-- dates as civil day numbers and as the instants at which they are surfaced in the feed's zone -/
+def serviceJ (zt : Zone.Table) (s : Service) : Json :=
   jObj [("id", jStr s.id), ("days", jList jBool [s.monday, s.tuesday, s.wednesday, s.thursday, s.friday, s.saturday, s.sunday]),
-        ("startDate", jInt s.startDate), ("endDate", jInt s.endDate), ("added", jList jInt s.added), ("removed", jList jInt s.removed)]
+        ("startDate", jInt s.startDate), ("endDate", jInt s.endDate), ("added", jList jInt s.added), ("removed", jList jInt s.removed),
+        ("startAt", jOpt jInt (zt.instant s.startDate)), ("endAt", jOpt jInt (zt.instant s.endDate)),
+        ("addedAt", jList (fun d => jOpt jInt (zt.instant d)) s.added), ("removedAt", jList (fun d => jOpt jInt (zt.instant d)) s.removed)]
 
 def pointJ (p : ShapePoint) : Json :=
   jObj [("latitude", jNat p.latitude), ("longitude", jNat p.longitude), ("distance", jOpt jNat p.distance)]
@@ -54,13 +57,17 @@ def warningJ (w : Warning) : Json :=
   jObj [("file", jStr w.file), ("rowNumber", jNat w.rowNumber), ("rowContent", jList jStr w.rowContent),
         ("header", jList jStr w.header), ("kind", kind)]
 
-def resultJ (r : Result) : Json :=
+abbrev Tables := List (Str × Zone.Table)
+
+def tableFor (ts : Tables) (zone : Str) : Zone.Table := ((ts.find? (fun p => p.1 == zone)).map (·.2)).getD {}
+
+def resultJ (ts : Tables) (r : Result) : Json :=
   jObj [("agencies", jList agencyJ r.agencies), ("routes", jList routeJ r.routes), ("stops", jList stopJ r.stops),
-        ("transfers", jList transferJ r.transfers), ("services", jList serviceJ r.services), ("trips", jList tripJ r.trips),
+        ("transfers", jList transferJ r.transfers), ("services", jList (serviceJ (tableFor ts r.zone)) r.services), ("trips", jList tripJ r.trips),
         ("shapes", jList shapeJ r.shapes), ("warnings", jList warningJ r.warnings), ("zone", jStr r.zone)]
 
-def outcomeJ : Outcome → Json
-  | .ok r => jObj [("outcome", Json.str "ok"), ("result", resultJ r)]
+def outcomeJ (ts : Tables) : Outcome → Json
+  | .ok r => jObj [("outcome", Json.str "ok"), ("result", resultJ ts r)]
   | .error f => jObj [("outcome", Json.str "error"), ("file", jStr f)]
 
 def envOf (j : Json) : R Env := do
@@ -78,7 +85,9 @@ def handle (j : Json) : R Json := do
   let env ← envOf j
   let members ← membersOf j "members"
   let variants ← getList (fun v => asList (fun e => do pure (← getStr e "name", ← getStr e "data")) v) j "variants"
-  return jObj [("main", outcomeJ (parse env members)), ("variants", jList (fun ms => outcomeJ (parse env ms)) variants)]
+  let entries ← getList (fun e => do pure (← getOpt asStr e "resolved", ← getOpt tableOf e "table")) j "zones"
+  let ts : Tables := entries.filterMap fun e => match e with | (some n, some t) => some (n, t) | _ => none
+  return jObj [("main", outcomeJ ts (parse env members)), ("variants", jList (fun ms => outcomeJ ts (parse env ms)) variants)]
 
 /-- the CSV reader alone (validation of the reader model against encoding/csv) -/
 def handleCsv (j : Json) : R Json := do
